@@ -2,6 +2,7 @@ package main
 
 import (
 	"fmt"
+	"go/ast"
 	"go/token"
 	"go/types"
 	"os"
@@ -729,6 +730,15 @@ func (f *Frame) atReturn(x *ssa.Return, at string, vals []*Val, st *State) {
 				continue
 			}
 			cenv = f.invEnv(f.namesAt(x.Block(), names), st)
+		} else if m := retValRe.FindStringSubmatch(lab); m != nil {
+			// "ensures retval_<ident>__<name>: e" holds at every return statement whose
+			// (first) result is written as that identifier (`return policyResult`,
+			// `return ErrNoMatchingPolicy`), wherever such a statement stands: it says what
+			// must have happened before that value may be handed out. Locals in scope.
+			if vc.returnedIdent(x) != m[1] {
+				continue
+			}
+			cenv = f.invEnv(f.namesAt(x.Block(), names), st)
 		}
 		t, err := cenv.trBool(cl.Expr)
 		if err != nil {
@@ -745,6 +755,34 @@ func (f *Frame) atReturn(x *ssa.Return, at string, vals []*Val, st *State) {
 }
 
 var retOnlyRe = regexp.MustCompile(`^ret([0-9]+)_`)
+var retValRe = regexp.MustCompile(`^retval_(.+?)__`)
+
+// returnedIdent: the identifier (or the selector's last name) that the return
+// statement of x writes as its first result, "" if it is any other expression.
+func (vc *VC) returnedIdent(x *ssa.Return) string {
+	syn := vc.fn.Syntax()
+	if syn == nil || !x.Pos().IsValid() {
+		return ""
+	}
+	name := ""
+	ast.Inspect(syn, func(n ast.Node) bool {
+		if fl, ok := n.(*ast.FuncLit); ok && ast.Node(fl) != syn {
+			return false // returns of nested function literals belong to them
+		}
+		r, ok := n.(*ast.ReturnStmt)
+		if !ok || r.Return != x.Pos() || len(r.Results) == 0 {
+			return true
+		}
+		switch e := r.Results[0].(type) {
+		case *ast.Ident:
+			name = e.Name
+		case *ast.SelectorExpr:
+			name = e.Sel.Name
+		}
+		return false
+	})
+	return name
+}
 
 // retLabel names a return statement by its ordinal among the function's returns.
 func (vc *VC) retLabel(x *ssa.Return) string {
